@@ -113,6 +113,8 @@ def struct_mutants(r, base, quick):
         s1, s2 = p.chunks[1], p.chunks[2]
         nb = body[:s1["start"]] + body[s2["start"]:s2["start"] + s2["comp_len"]] + body[s1["start"]:s1["start"] + s1["comp_len"]] + body[s2["start"] + s2["comp_len"]:]
         add("swap-chunks-consistent", [1, 2], chunks=c2, body=nb, data_digest=None if not p.has_uncomp else p.data_digest)
+        # ... and the same with the whole-data checksum left as it was: every chunk verifies, only the data checksum tells
+        add("swap-chunks+stale-data-digest", [1, 2], chunks=c2, body=nb, data_digest=p.data_digest)
         add("drop-entry", [n - 1], chunks=ch[:-1])
         add("dup-entry", [1], chunks=ch + [ch[1]])
     add("data-digest-bit", [], data_digest=bytes([p.data_digest[0] ^ 0x80]) + p.data_digest[1:])
@@ -171,6 +173,12 @@ def struct_mutants(r, base, quick):
             add("last-chunk-cut+digests", [cut], body=bytes(body), chunks=c2, data_digest=None if not p.has_uncomp else p.data_digest)
     add("sig-count-1", [], sig_count=1)
     add("header-tail", [], header_tail=b"\x00\x01\x02")
+    # the 5-byte identifier is outside the header checksum: the same alterations presented under the detached-header identifier
+    # (whatever a reader makes of a "detached header" that carries a body, it must not deliver different content with success)
+    for name, desc, img in list(out):
+        if name.split(":")[1] in ("swap-chunks+stale-data-digest", "data-digest-bit", "chunk-body+data-digest", "swap-entries", "stored-size", "last-chunk-cut+digests") and img[:5] == zckref.MAGIC_FULL:
+            out.append((name + "+zhr1-id", desc, zckref.MAGIC_HDR + img[5:]))
+    out.append(("reseal:zhr1-id", [], zckref.MAGIC_HDR + d[5:]))
     return out
 
 
@@ -182,7 +190,12 @@ def worker(case):
     stats = {"files": 1}
     try:
         try:
-            ref = zckref.decode(data)
+            # The 5-byte identifier is not covered by any checksum.  An image that carries the detached-header identifier AND a body is
+            # judged as the file it is apart from those five bytes (all checksums must match and the content must be that file's): the
+            # property does not say such an image has to be refused, only that no different content may come out of it with success
+            ref = zckref.decode(zckref.MAGIC_FULL + data[5:] if data[:5] == zckref.MAGIC_HDR else data)
+            if data[:5] == zckref.MAGIC_HDR:
+                stats["detached_identifier_images"] = 1
         except zckref.Inconclusive as e:
             return core.verdict(cid, "inconclusive", detail=str(e))
         stats["ref_valid" if ref.valid else "ref_invalid"] = 1
